@@ -309,6 +309,9 @@ def rule_one_system(ctx, py, R="C04.ONE-SYSTEM"):
 
 
 def run(ctx):
+    # package-wide disciplines first: they need no anchor, and what they find stands whatever the rules below can analyse
+    from .. import lints
+    lints.run(ctx, "C04", ctx.py, ["units", "librdengine", "rdsystem", "coarsegrain", "value_processing", "rdnetwork", "rdgridspace", "rdgraphspace", "rdscript", "kinetics"])
     py, tu = ctx.py, ctx.cx
     rule_boundary(ctx, py, tu)
     dim.rule_all(ctx, tu, "C04.HOMOG")
@@ -330,7 +333,5 @@ def run(ctx):
     borrow(ctx, "C04", c06.rule_convert_args, ctx.py, "C04.ARGS-CONV")
     from .. import ffi
     ffi.rule_sig(ctx, "C04.FFI")
-    from .. import lints
-    lints.run(ctx, "C04", ctx.py, ["units", "librdengine", "rdsystem", "coarsegrain", "value_processing"])
     ctx.assume("equality of the numbers after rounding is not decided; the dimensions assumed for the marshalled inputs "
                "are those of the Python arguments in the same FFI positions (C20.DIMS)")
